@@ -3,7 +3,7 @@
 from .. import core, tree
 
 MOD = "mc.props.c05"
-KINDS = ("node", "user", "light", "anynode", "weird", "eqhash", "falsy", "falsylight", "container")
+KINDS = ("node", "user", "light", "anynode", "weird", "eqhash", "falsy", "falsylight", "container", "tuplenode", "tuple0")
 
 
 def iterators():
@@ -82,14 +82,50 @@ def check_shape(t, shape, kinds=KINDS, hows=("topdown", "bottomup")):
                         why = "%s: two interleaved iterators over the same start node disturb each other" % name
                     if why:
                         t.violation("C05: " + why, case(shape, kind, how, start, name, exp[name], "re-use"))
+                        continue
+                    # iterator objects of the same class over DIFFERENT start nodes: one abandoned after k items (every k)
+                    # before the other is created; two live ones advanced alternately to the end
+                    for other in sorted({0, m.n - 1, m.par[start] if m.par[start] is not None else start} - {start}):
+                        exp_o = {"pre": m.pre, "post": m.post, "level": m.level, "groups": m.groups, "zigzag": m.zigzag}[name](other)
+                        for k in range(1, len(exp_o)):
+                            it0 = cls(nodes[other])
+                            for _ in range(k):
+                                next(it0)
+                            got = _ids(list(cls(nodes[start])), idm)
+                            t.c["iterator_reuse_checks"] += 1
+                            if got != exp[name]:
+                                why = "%s: a new iterator is disturbed by an earlier iterator object (start node %d) abandoned after %d items" % (name, other, k)
+                                break
+                            del it0
+                        if why is None:
+                            a, b = cls(nodes[start]), cls(nodes[other])
+                            ga, gb = [], []
+                            while True:
+                                x, y = next(a, _END), next(b, _END)
+                                if x is _END and y is _END:
+                                    break
+                                if x is not _END:
+                                    ga.append(x)
+                                if y is not _END:
+                                    gb.append(y)
+                            t.c["iterator_reuse_checks"] += 1
+                            if _ids(ga, idm) != exp[name] or _ids(gb, idm) != exp_o:
+                                why = "%s: two live iterators over the start nodes %d and %d, advanced alternately, disturb each other" % (name, start, other)
+                                got = [_ids(ga, idm), _ids(gb, idm)]
+                        if why:
+                            t.violation("C05: " + why, case(shape, kind, how, start, name, exp[name], got))
+                            break
                 after = tree.read_structure(nodes, idm)
                 if after != before:
                     t.violation("C05: iterating modified the tree", case(shape, kind, how, start, "*", before, after))
     t.sample({"shape": shape, "pre": m.pre(0), "post": m.post(0), "groups": m.groups(0)}, cap=2)
 
 
+_END = object()
+
+
 def _ids(seq, idm):
-    return [idm.seq(x) if isinstance(x, tuple) else idm(x) for x in seq]
+    return [idm.seq(x) if type(x) is tuple else idm(x) for x in seq]
 
 
 def case(shape, kind, how, start, name, exp, got):
